@@ -1,6 +1,210 @@
 import Fabio.Driver.Proto
+import Fabio.Model.C10
 namespace Fabio.Driver.C10
-open Lean Fabio.Driver
+open Lean Fabio.Driver Fabio.Model.C10
 
-def streams : List (String × Handler) := []
+/-! Hex transport of byte strings. -/
+
+def hexVal (c : Char) : Option Nat :=
+  if '0' ≤ c ∧ c ≤ '9' then some (c.toNat - 48)
+  else if 'a' ≤ c ∧ c ≤ 'f' then some (c.toNat - 87)
+  else if 'A' ≤ c ∧ c ≤ 'F' then some (c.toNat - 55)
+  else none
+
+def hexDecodeL : List Char → Option Bytes
+  | [] => some []
+  | [_] => none
+  | a :: b :: rest => do
+    let x ← hexVal a
+    let y ← hexVal b
+    let r ← hexDecodeL rest
+    pure (UInt8.ofNat (x * 16 + y) :: r)
+
+def hexDecode (s : String) : Except String Bytes :=
+  match hexDecodeL s.toList with
+  | some b => .ok b
+  | none => .error "bad hex"
+
+def hexDigit (n : Nat) : Char := if n < 10 then Char.ofNat (48 + n) else Char.ofNat (87 + n)
+
+def hexEncode (b : Bytes) : String :=
+  String.ofList (b.foldr (fun x acc => hexDigit (x.toNat / 16) :: hexDigit (x.toNat % 16) :: acc) [])
+
+def panicJ : Json := Json.mkObj [("panic", true)]
+
+def isPanicJ (j : Json) : Bool := (j.getObjVal? "panic").toOption.isSome
+
+/-- What the implementation reported for a byte string (see harness/c10/observe.go). -/
+structure Obs where
+  size : Option Nat
+  sizeErr : Option String
+  ok : Bool
+  name : String
+  route : Option String
+deriving BEq
+
+structure Oracles where
+  tlsOk : Bool
+  tlsName : String
+  strictOk : Bool
+  strictName : String
+
+def optStr (j : Json) (k : String) : Option String :=
+  match j.getObjVal? k with
+  | .ok (Json.str s) => some s
+  | _ => none
+
+def readObs (j : Json) : Except String Obs := do
+  let ok ← j.getObjValAs? Bool "ok"
+  let name ← j.getObjValAs? String "name"
+  return { size := (j.getObjValAs? Nat "size").toOption, sizeErr := optStr j "size_err", ok := ok, name := name,
+           route := optStr j "route" }
+
+def readOracles (j : Json) : Except String Oracles := do
+  return { tlsOk := ← j.getObjValAs? Bool "tls_ok", tlsName := ← j.getObjValAs? String "tls_name",
+           strictOk := ← j.getObjValAs? Bool "strict_ok", strictName := ← j.getObjValAs? String "strict_name" }
+
+/-- The model's view of a byte string `b` a client sends: the three calls the harness makes. `none` = the
+model reaches a panic point. -/
+def modelObs (b : Bytes) : Option Obs × String :=
+  let sz := clientHelloBufferSize (b.take 9)
+  let rs := readServerName (b.drop 5)
+  let rt := sniRoute b
+  let tag := match sz with
+    | .reject s => "size:" ++ s
+    | .panic _ => "size:panic"
+    | .ok n => match rt with
+      | .ok nm => if nm.isEmpty then "ok-no-name" else "ok-sni"
+      | .reject s =>
+        if s == "read-full" then
+          -- a truncated record: fewer than `n` bytes arrived. The tag names what `readServerName` makes of the
+          -- bytes that did arrive; it accepts only at the cut named in `Props.C10.truncation_exception`.
+          (match unmarshal (b.drop 5) with
+           | .ok _ => if b.length < n then "short:accepted-by-readServerName" else "short:ok"
+           | .reject s => "short:" ++ s
+           | .panic _ => "short:panic")
+        else "parse:" ++ s
+      | .panic _ => "parse:panic"
+  match sz, rs, rt with
+  | .panic _, _, _ | _, .panic _, _ | _, _, .panic _ => (none, tag)
+  | sz, .ok (nm, ok), rt =>
+    (some { size := match sz with | .ok n => some n | _ => none
+            sizeErr := match sz with | .reject s => some s | _ => none
+            ok := ok, name := hexEncode nm
+            route := match rt with | .ok [] => none | .ok nm => some (hexEncode nm) | _ => none }, tag)
+
+def obsJson (o : Option Obs) : Json :=
+  match o with
+  | none => panicJ
+  | some o => Json.mkObj [("size", match o.size with | some n => Json.num n | none => Json.null),
+      ("size_err", match o.sizeErr with | some s => Json.str s | none => Json.null),
+      ("ok", o.ok), ("name", o.name), ("route", match o.route with | some s => Json.str s | none => Json.null)]
+
+def nonEmpty (s : String) : Option String := if s.isEmpty then none else some s
+
+/-- The property on the implementation's own output for a byte string `b` (independent of the model
+functions): no panic; the buffer size stays within the first record (`≤ 5 + recordLength ≤ 5 + 16384`) and
+covers `data[5:]`; nothing is routed unless exactly that many bytes arrived; whatever the strict RFC reader
+accepts is accepted with the same name; whenever both fabio and crypto/tls accept, they see the same name. -/
+def specBytes (b : Bytes) (o : Obs) (orc : Oracles) : Bool :=
+  let recLen := (b.getD 3 0).toNat * 256 + (b.getD 4 0).toNat
+  let sizeOk := match o.size with
+    | some n => 10 ≤ n ∧ n ≤ recLen + 5 ∧ recLen ≤ 16384 ∧ 9 ≤ b.length
+    | none => true
+  let routeOk := match o.route with
+    | some _ => (match o.size with | some n => decide (n ≤ b.length) | none => false)
+    | none => true
+  let strictOk := !orc.strictOk ||
+    (o.route == nonEmpty orc.strictName && o.size.isSome &&
+      (o.size != some b.length || (o.ok && o.name == orc.strictName)))
+  let oraclesOk := !(orc.strictOk && orc.tlsOk) || orc.strictName == orc.tlsName
+  let bothOk := !(orc.tlsOk && o.route.isSome) || o.route == some orc.tlsName
+  sizeOk && routeOk && strictOk && oraclesOk && bothOk
+
+def bytesH (real : Bool) : Handler := fun inp impl => do
+  let hex ← inp.getObjValAs? String "hex"
+  let b ← hexDecode hex
+  let (m, tag) := modelObs b
+  if isPanicJ impl then
+    return ({ model := obsJson m, agree := m.isNone, spec := false, nontrivial := true, tag := "impl-panic:" ++ tag } : Verdict).toJson
+  let o ← readObs impl
+  let orc ← readOracles impl
+  let spec := specBytes b o orc && (!real || (orc.tlsOk && orc.strictOk))
+  let nontrivial := if real then orc.tlsOk && orc.strictOk && o.route.isSome else o.size.isSome
+  return ({ model := obsJson m, agree := m == some o, spec := spec, nontrivial := nontrivial, tag := tag } : Verdict).toJson
+
+/-! Abstract hellos (stream `c10.model`). -/
+
+def byteAt (j : Json) (k : String) (i : Nat) : UInt8 :=
+  match j.getObjVal? k with
+  | .ok (Json.arr a) => match a[i]? with
+    | some v => match v.getInt? with
+      | .ok n => UInt8.ofNat (n % 256).toNat
+      | .error _ => 0
+    | none => 0
+  | _ => 0
+
+def hexField (j : Json) (k : String) : Except String Bytes := do
+  let s ← j.getObjValAs? String k
+  hexDecode s
+
+def pairs : Bytes → List (UInt8 × UInt8)
+  | a :: b :: rest => (a, b) :: pairs rest
+  | _ => []
+
+def readExt (j : Json) : Except String Ext := do
+  let isSni ← j.getObjValAs? Bool "is_sni"
+  if isSni then
+    let es := match j.getObjVal? "sni" with
+      | .ok (Json.arr a) => a.toList
+      | _ => []
+    let entries ← es.mapM fun e => do
+      let t ← e.getObjValAs? Int "t"
+      let nm ← hexField e "name"
+      pure (UInt8.ofNat (t % 256).toNat, nm)
+    return .serverName entries
+  else
+    let t ← j.getObjValAs? Int "typ"
+    let body ← hexField j "body"
+    return .other (t % 65536).toNat body
+
+def readHello (j : Json) : Except String Hello := do
+  let hasExts ← j.getObjValAs? Bool "has_exts"
+  let exts ← match j.getObjVal? "exts" with
+    | .ok (Json.arr a) => a.toList.mapM readExt
+    | _ => pure []
+  return { versHi := byteAt j "vers" 0, versLo := byteAt j "vers" 1, random := ← hexField j "random",
+           sessionId := ← hexField j "sid", cipherSuites := pairs (← hexField j "ciphers"),
+           compressionMethods := ← hexField j "comp", extensions := if hasExts then some exts else none }
+
+def sniPos (es : List Ext) : String :=
+  match es.findIdx? (fun e => e.typ == 0) with
+  | none => "nosni"
+  | some i => if es.length == 1 then "sni-only" else if i == 0 then "sni-first"
+              else if i + 1 == es.length then "sni-last" else "sni-mid"
+
+def modelH : Handler := fun inp impl => do
+  let h ← readHello inp
+  let b := record (byteAt inp "recv" 0) (byteAt inp "recv" 1) h
+  let (m, mtag) := modelObs b
+  let mj := (obsJson m).setObjVal! "hex" (hexEncode b)
+  let wf : Bool := decide (WellFormed h) && decide (FitsRecord h)
+  let tag := if wf then "wf-" ++ (match h.extensions with | none => "noext" | some es => sniPos es)
+             else "nonwf-" ++ mtag
+  if isPanicJ impl then
+    return ({ model := mj, agree := m.isNone, spec := false, nontrivial := true, tag := "impl-panic:" ++ tag } : Verdict).toJson
+  let o ← readObs impl
+  let orc ← readOracles impl
+  let ihex ← impl.getObjValAs? String "hex"
+  let want := hexEncode (sniOf h)
+  let encOk := ihex == hexEncode b
+  let wfSpec := !wf ||
+    (o.ok && o.name == want && o.size == some b.length && o.route == nonEmpty want &&
+     orc.strictOk && orc.strictName == want && (!orc.tlsOk || orc.tlsName == want))
+  let nontrivial := wf && (match h.extensions with | some es => es.length ≥ 2 && es.any (fun e => e.typ == 0) | none => false)
+  return ({ model := mj, agree := m == some o && encOk, spec := encOk && specBytes b o orc && wfSpec,
+            nontrivial := nontrivial, tag := tag } : Verdict).toJson
+
+def streams : List (String × Handler) :=
+  [("c10.real", bytesH true), ("c10.mutate", bytesH false), ("c10.model", modelH)]
 end Fabio.Driver.C10
